@@ -446,7 +446,7 @@ pub struct C15Final;
 
 pub fn run_shard(ctx: &mut Ctx) {
     let mut r = Rng::new(ctx.shard_seed());
-    let quick_n = 80u64;
+    let quick_n = 120u64;
     let mut h = 0u64;
     let is07 = ctx.prop == "C07";
     loop {
